@@ -22,6 +22,9 @@ func (c *Conn) verifSecondHello(ch *clientHelloMsg)                           {}
 func (c *Conn) verifReadClientEE(transcript transcriptHash) error             { return nil }
 func (c *Conn) verifYield(point string)                                       {}
 func (c *Conn) verifSplitShare(sel, g CurveID, data []byte) (CurveID, []byte) { return g, data }
+func (c *Conn) verifSiblingShare(ch *clientHelloMsg, sel CurveID, ks *keyShare) *keyShare {
+	return ks
+}
 func (c *Conn) verifHybridEncap(hs *serverHandshakeStateTLS13, sel CurveID, ks *keyShare) error {
 	return nil
 }
